@@ -5,7 +5,7 @@ from .c04 import ops_correspondence
 
 
 def check(res, thorough):
-    ok_t, ok_b, ok_h = core.prepare(res, "AscaVerif.Props.C17", thorough=thorough, extra_props=["AscaVerif.Props.C17Lex", "AscaVerif.Props.C17Parse"])
+    ok_t, ok_b, ok_h = core.prepare(res, "AscaVerif.Props.C17", thorough=thorough, extra_props=["AscaVerif.Props.C17Lex", "AscaVerif.Props.C17Parse", "AscaVerif.Props.C02ATotal"])
     tier = "thorough" if thorough else "quick"
     if ok_h and os.path.exists(core.DRIVER_BIN):
         scratch = core.scratch_dir("c17")
